@@ -125,6 +125,15 @@ func (prop) Generate(rng *core.Rand, tier string, emit func(string)) {
 	for c := 0; c < n/20; c++ {
 		genHost(rng.Fork(), emit)
 	}
+	for c := 0; c < n/10; c++ {
+		genChain(rng.Fork(), emit)
+	}
+	for c := 0; c < n/20; c++ {
+		genTpl(rng.Fork(), emit)
+	}
+	for c := 0; c < n/20; c++ {
+		genCfEnv(rng.Fork(), emit)
+	}
 	for c := 0; c < n; c++ {
 		var sb strings.Builder
 		np := rng.Intn(9)
@@ -274,8 +283,17 @@ func (prop) Run(line string) core.Outcome {
 	if len(f) == 5 && f[0] == "httprw" {
 		return runRewrite(line, f)
 	}
+	if len(f) == 5 && f[0] == "cfenv" {
+		return runCfEnv(line, f)
+	}
+	if len(f) == 5 && f[0] == "httptpl" {
+		return runTpl(line, f)
+	}
 	if len(f) == 8 && f[0] == "httphost" {
 		return runHost(line, f)
+	}
+	if len(f) == 13 && f[0] == "httpchain" {
+		return runChain(line, f)
 	}
 	if len(f) == 13 && f[0] == "httprwm" {
 		return runRwm(line, f)
